@@ -1,11 +1,14 @@
 #!/usr/bin/env python3
-import json, os, sys
+import glob, json, os, sys
 sys.path.insert(0, "/verif")
 from gmxsa.props import PROPS, NOT_APPLICABLE
+for f in glob.glob("/verif/gmxsa/props.d/C*.json"):
+    PROPS[os.path.basename(f)[:-5]] = json.load(open(f))
 ids = [json.loads(l)["id"] for l in open("/verif/properties.jsonl")]
+kf = json.load(open("/verif/known-findings.json")) if os.path.exists("/verif/known-findings.json") else {}
 checks, na = [], []
 for i in ids:
-    if i in PROPS and os.path.exists("/verif/gmxsa/rules/%s.py" % i):
+    if i in PROPS and os.path.exists("/verif/gmxsa/rules/%s.py" % i) and i not in NOT_APPLICABLE:
         p = PROPS[i]
         checks.append({
             "property_id": i,
@@ -27,7 +30,7 @@ m = {
         "guard": "gmxsa_verif",
         "enable": "not used: the analysis reads the compiler's view (MIR/HIR) of the unmodified source; no instrumentation is compiled in",
         "baseline_off_cmd": "cd /repo && cargo test --workspace --no-fail-fast --offline",
-        "source_commits": json.load(open("/verif/known-findings.json")).get("fix_commits", []) if os.path.exists("/verif/known-findings.json") else [],
+        "source_commits": kf.get("fix_commits", []),
         "add_only": True,
     },
     "engines": [{"name": "gmxsa", "path": "/verif/check", "serves_properties": [c["property_id"] for c in checks],
